@@ -201,16 +201,18 @@ fn check_tag(r: &mut Report, t: u16) {
         }
     }
     // the tag followed by every possible next byte (a tag must never swallow data that follows it)
-    if t < 0x100 || t & 0xff < 4 || t & 0xff > 0xfb || t % 37 == 0 {
+    {
+        // every representable tag (256 one-byte + 512 two-byte) x every next byte, alone and followed by more data
         for next in 0..=255u8 {
             r.case_enumerated(true);
             let mut input = expected.clone();
-            input.extend([next, 0x77]);
+            let tail: Vec<u8> = if next % 2 == 0 { vec![next, 0x77] } else { vec![next] };
+            input.extend(&tail);
             match guarded(|| <Dflt as Encoding<Tag>>::decode(&input).map(|(x, rest)| (x.0, rest.to_vec())).map_err(|e| format!("{e:?}"))) {
                 Err(p) => viol(r, &format!("Default<Tag> {}", panic_signature(&p)), format!("decode({}): {p}", hex(&input)), json!({"tag": format!("{t:04x}"), "next_byte": next})),
                 Ok(d) => {
-                    if d != Ok((t, vec![next, 0x77])) {
-                        viol(r, "Default<Tag> decode depends on the byte that follows the tag", format!("decode({}) = {d:?}, expected tag {t:04x} and the two bytes handed back", hex(&input)), json!({"tag": format!("{t:04x}"), "next_byte": next}));
+                    if d != Ok((t, tail.clone())) {
+                        viol(r, "Default<Tag> decode depends on the byte that follows the tag", format!("decode({}) = {d:?}, expected tag {t:04x} and the following bytes handed back", hex(&input)), json!({"tag": format!("{t:04x}"), "next_byte": next}));
                     }
                 }
             }
@@ -337,7 +339,7 @@ pub fn miri_slice(r: &mut Report, seed: u64, n: usize, shard: usize) -> usize {
 
 pub fn run(ctx: &Ctx) -> i32 {
     let mut report = ctx.report("C17", "exploration");
-    report.rule = "integers: u8/u16 exhaustively, u32/u64/usize at every power-of-ten and power-of-two boundary (+-1) plus random values, each under Default(LE)/BigEndian/Bcd, encode compared with an independent formula and decode(encode(v)) with (v, nothing left); all 65536 tags under BigEndian and every representable tag under Default, every one-byte tag (and a slice of the two-byte tags) followed by every possible next byte; BCD *inputs*: every digit string of 0..3 bytes with and without a trailing F pad exhaustively, sampled to 11 bytes, for all five integer widths (value, or error when the digits exceed the type); CP437: every byte string of length 1..2 and all 256 bytes in each position of length-3 strings (canonical = no trailing NUL), random strings to 999 bytes; hex strings to 64 bytes; receipt numbers 0..9999 and FFFF; and the codecs interleaved (one value through every integer width, the tag, text and hex codecs back to back in rotating order). Non-trivial = inside the claimed domain; distinct = distinct (encoding, type, value/input).".into();
+    report.rule = "integers: u8/u16 exhaustively, u32/u64/usize at every power-of-ten and power-of-two boundary (+-1) plus random values, each under Default(LE)/BigEndian/Bcd, encode compared with an independent formula and decode(encode(v)) with (v, nothing left); all 65536 tags under BigEndian and every representable tag under Default, every representable tag (one- and two-byte) followed by every possible next byte; BCD *inputs*: every digit string of 0..3 bytes with and without a trailing F pad exhaustively, sampled to 11 bytes, for all five integer widths (value, or error when the digits exceed the type); CP437: every byte string of length 1..2 and all 256 bytes in each position of length-3 strings (canonical = no trailing NUL), random strings to 999 bytes; hex strings to 64 bytes; receipt numbers 0..9999 and FFFF; and the codecs interleaved (one value through every integer width, the tag, text and hex codecs back to back in rotating order). Non-trivial = inside the claimed domain; distinct = distinct (encoding, type, value/input).".into();
     report.exhaustive = Some(false);
     report.assumptions = vec![
         "independent encodings in refcodec::codec (bcd_bytes, tag_bytes, CP437 table generated from Python's cp437 codec)".into(),
